@@ -37,6 +37,8 @@ MOD_SRC = {
     "a": "import {P}b\nVERSION = {V}\ndef f(x: int) -> int:\n    return VERSION\n",
     "b": "VERSION = {V}\ndef f(x: int) -> int:\n    return VERSION\n",
     "c": "VERSION = {V}\ndef f(x: int) -> int:\n    return VERSION\n",
+    # a deeply nested expression: walking its tree needs much more stack than compiling or running it
+    "d": "VERSION = {V}\ndef f(x: int) -> int:\n    return VERSION\nDEEP = " + "(0 if VERSION else " * 70 + "1" + ")" * 70 + "\n",
 }
 SPY = ("import os\nSEEN = []\ndef check(fn, *a, **k):\n    SEEN.append(fn.__module__)\n    return fn\n"
        "def make(n):\n    return check\n")
@@ -62,13 +64,30 @@ RUNNER = textwrap.dedent('''
             importlib.import_module(prefix + "broken")
         except SyntaxError:
             pass
+    def deep_import(name):
+        # the import happens deep inside a recursion (a plugin loader, a long chain of nested imports): the program
+        # catches RecursionError and retries with more room; the first attempt that succeeds is the one that counts
+        limit = sys.getrecursionlimit()
+        def down(k, then):
+            return then() if k <= 0 else down(k - 1, then)
+        for headroom in range(30, 400, 10):
+            try:
+                down(limit - headroom - 60, lambda: importlib.import_module(name))
+                return headroom
+            except RecursionError:
+                for k in [k for k in sys.modules if k == name]:
+                    del sys.modules[k]
+        return None
     for m in spec["order"]:
-        importlib.import_module(prefix + m)
+        if spec.get("deep") and m == "d":
+            deep_import(prefix + m)
+        else:
+            importlib.import_module(prefix + m)
     if hook: hook.uninstall()
     if hook2: hook2.uninstall()
     out = {}
     spies = {n: sys.modules.get(n) for n in ("spy_a", "spy_b")}
-    for m in ("a", "b", "c"):
+    for m in ("a", "b", "c", "d"):
         mod = sys.modules.get(prefix + m)
         if mod is None: continue
         who = [n for n, s in spies.items() if s is not None and (prefix + m) in s.SEEN]
@@ -92,7 +111,7 @@ def write_sources(root, prefix, versions, mtimes=None):
 
 
 def run_history(root, prefix, history):
-    versions = {"a": 1, "b": 1, "c": 1}
+    versions = {"a": 1, "b": 1, "c": 1, "d": 1}
     mtimes = dict(versions)
     write_sources(root, prefix, versions, mtimes)
     outs = []
@@ -172,6 +191,10 @@ FIXED = [
      {"hooked": ["a"], "checker": "spy_a.check", "order": ["c", "a"], "second": {"mods": ["c"], "checker": "spy_b.check", "first": True}}],
     [{"hooked": ["c"], "checker": "spy_b.check", "order": ["c", "b"], "second": {"mods": ["b"], "checker": "spy_a.check", "first": True}},
      {"hooked": ["c"], "checker": "spy_b.check", "order": ["c", "b"]}, {"hooked": ["b"], "checker": "spy_a.check", "order": ["b", "c"]}],
+    # the hooked module is first imported from deep inside a recursion (the import may fail there and be retried with more
+    # room): whatever that run ends up executing, the next run gets what its own configuration calls for
+    [{"hooked": ["d"], "checker": "spy_a.check", "order": ["d"], "deep": True}, {"hooked": ["d"], "checker": "spy_a.check", "order": ["d"]},
+     {"hooked": [], "checker": None, "order": ["d"]}],
     # None checker then a real spy
     [{"hooked": ["a", "b", "c"], "checker": None, "order": ["c", "a"]}, {"hooked": ["a", "b", "c"], "checker": "spy_a.check", "order": ["a", "c"]}],
 ]
